@@ -891,6 +891,19 @@ class Body:
             dty = None
             if d['k'] in ('copy', 'move') and not d['place']['p']:
                 dty = self.locals[d['place']['l']]['ty']
+            elif d['k'] in ('copy', 'move') and isinstance(d['place']['p'][-1], dict) and d['place']['p'][-1].get('ty'):
+                # a component of a matched tuple / struct (`match (kind, holds) { (A, true) => .. }`)
+                dty = d['place']['p'][-1]['ty']
+            if dty is None or dty == '_':
+                # the tested value itself may say so: the result of a comparison / negation, or a bool-typed local
+                o_ = on
+                if o_.kind in ('bin',) and o_.key[0] in ('Eq', 'Ne', 'Lt', 'Le', 'Gt', 'Ge'):
+                    dty = 'bool'
+                elif o_.kind == 'call' and not o_.projs and self.call_at(o_.key) is not None and \
+                        not self.call_at(o_.key).t['dest']['p'] and \
+                        self.locals[self.call_at(o_.key).t['dest']['l']]['ty'] == 'bool' and \
+                        set(v_ for v_, _ in t['targets']) <= {0, 1}:
+                    dty = 'bool'
             if dty == 'bool':
                 for val, tb in t['targets']:
                     lab = bool(val)
